@@ -42,4 +42,20 @@ CLAIMS["C17"] = {"text": "TLC visits every (receiver, numeric filter, argument) 
                         "are errors) and every case is rendered by the implementation and trace-validated (exact output "
                         "spelling where the result has a finite decimal expansion)."}
 
+CLAIMS["C08"] = {"text": "TLC enumerates the expression families of MC_C08 (index grid incl. negative/out-of-range/non-numeric indices, "
+                        "lookup paths on 12 bases in default and strict mode, filter chains of <= 2/3 steps written directly and "
+                        "decomposed into assigns, unknown filter / too many arguments for every filter, literals, 6 whitespace "
+                        "spellings incl. newlines), checks the lookup and pipeline laws on the reference, and every case is "
+                        "rendered by the implementation and trace-validated."}
+CLAIMS["C10"] = {"text": "TLC explores the render machine step by step on every if/elsif/else chain of 1-3 conditions over a 10-value "
+                        "universe (all falsy and falsy-looking values), the if/unless dual for every value, failing conditions "
+                        "before and after the selected branch (later conditions must not be evaluated), case/when lists and "
+                        "nesting, against a declarative first-truthy definition; every case is rendered and trace-validated; "
+                        "thorough adds 20000 random nested programs."}
+CLAIMS["C12"] = {"text": "TLC explores every program of <= 3/4 statements over a 9-statement pool (assign, capture, shadowing loops, "
+                        "break, assign inside loop/if, capture containing a loop) step by step against a declarative store "
+                        "semantics, checks forloop restoration in every state, that no step inside an open capture reaches the "
+                        "sink, and the capture law for every program; all programs and their capture-wrapped twins are "
+                        "rendered by the implementation and trace-validated."}
+
 NOT_CLAIMED = {}
